@@ -32,6 +32,8 @@ def run(cx):
     # resent, the receiver waits for it for ever and refuses the resync that points past it
     from props.C02 import inst_emit_guards
     inst_emit_guards(cx, "C11.y")
+    from props.shared import ack_queue_discipline
+    ack_queue_discipline(cx, "C11.z")
     from props.shared import ack_processing_presence, dispatch_table
     ack_processing_presence(cx, "C11.h")
     dispatch_table(cx, "C11.i", only={"DataFrame", "SyncFrame", "AckFrame"})
